@@ -37,7 +37,7 @@ func c05pairs(c *core.Ctx) []c05pair {
 	// functions
 	for _, name := range sortedMembers(p.Fpgo) {
 		f, ok := p.Fpgo.Members[name].(*ssa.Function)
-		if !ok || !strings.Contains(name, "Interface") || !f.Object().Exported() {
+		if !ok || !strings.Contains(name, "Interface") {
 			continue
 		}
 		tn := core.TwinName(name)
@@ -45,6 +45,14 @@ func c05pairs(c *core.Ctx) []c05pair {
 			continue
 		}
 		g := p.Func(p.Fpgo, tn)
+		if !f.Object().Exported() {
+			// unexported helpers extracted from twins: compared when both exist (the exported twins call them
+			// under names that the normaliser identifies)
+			if g != nil {
+				out = append(out, c05pair{key: tn + "~" + name, gen: g, ifc: f})
+			}
+			continue
+		}
 		if g == nil {
 			if name == "ComposeInterface" || name == "PipeInterface" {
 				continue // wrappers that call the generic function itself
